@@ -10,24 +10,25 @@ From TarpcV Require Client Chain ChainSrv ChainRespCli.
 Notation stp := Chain.stp.
 Notation sst := (@sstate Chain.link).
 
-Lemma in_set_hst k st l : forall hr, In hr (set_hst k st l) -> In hr l \/ h_st hr = st.
+Lemma in_set_hst k st l : forall hr, In hr (set_hst k st l) ->
+  In hr l \/ (h_st hr = st /\ exists x, nth_error l k = Some x /\ h_id hr = h_id x).
 Proof.
   revert k; induction l as [|x r IH]; intros k hr H; [destruct k; destruct H|].
   destruct k as [|k]; cbn [set_hst] in H.
-  - destruct H as [<-|H]; [right; reflexivity|left; right; exact H].
+  - destruct H as [<-|H]; [right; split; [reflexivity|exists x; split; reflexivity]|left; right; exact H].
   - destruct H as [<-|H]; [left; left; reflexivity|]. destruct (IH k hr H) as [A|A]; [left; right; exact A|right; exact A].
 Qed.
 
 Section SVal.
-  Variable P : N -> Prop.
+  Variable P : N -> N -> Prop.
   Implicit Types s : sst.
 
-  Definition b_ok (b : rbody) : Prop := forall v, b = BOk v -> P v.
-  Definition st_ok (h : hstate) : Prop :=
-    match h with HWait b | HPermit b => b_ok b | _ => True end.
+  Definition b_ok (id : N) (b : rbody) : Prop := forall v, b = BOk v -> P id v.
+  Definition st_ok (id : N) (h : hstate) : Prop :=
+    match h with HWait b | HPermit b => b_ok id b | _ => True end.
   Record sv s : Prop := {
-    sv_q : forall r, In r (s_respq s) -> b_ok (resp_body r);
-    sv_h : forall hr, In hr (s_handlers s) -> st_ok (h_st hr);
+    sv_q : forall r, In r (s_respq s) -> b_ok (resp_id r) (resp_body r);
+    sv_h : forall hr, In hr (s_handlers s) -> st_ok (h_id hr) (h_st hr);
     sv_l : ChainRespCli.lk_ok P (s_t s) }.
 
   Lemma sv_eq s s' :
@@ -68,8 +69,8 @@ Section SVal.
       2: { constructor; sproj; assumption. }
       destruct hst; try (constructor; sproj; assumption).
       constructor; sproj; try assumption.
-      intros hr H. apply in_set_hst in H. destruct H as [H|H]; [apply B, H|].
-      rewrite H. cbn [st_ok]. apply (B _ (nth_error_In _ _ EN)).
+      intros hr H. apply in_set_hst in H. destruct H as [H|(H & x & Ex & Ei)]; [apply B, H|].
+      rewrite H, Ei. cbn [st_ok]. rewrite EN in Ex. injection Ex as <-. apply (B _ (nth_error_In _ _ EN)).
   Qed.
 
   (* a response leaves the queue for the link *)
@@ -77,7 +78,7 @@ Section SVal.
     s_respq s = m :: r -> base_start_send stp m (add_permit (set_respq s r)) = (e, s') -> sv s -> sv s'.
   Proof.
     intros EQ E H.
-    assert (Hm : b_ok (resp_body m)) by (apply (sv_q _ H); rewrite EQ; left; reflexivity).
+    assert (Hm : b_ok (resp_id m) (resp_body m)) by (apply (sv_q _ H); rewrite EQ; left; reflexivity).
     assert (H1 : sv (add_permit (set_respq s r))).
     { apply sv_add_permit. destruct H as [A B C]. constructor; sproj; try assumption.
       intros x Hx. apply A. rewrite EQ. right. exact Hx. }
@@ -122,7 +123,7 @@ Section SVal.
   Qed.
 End SVal.
 
-Lemma sv_mono (P P' : N -> Prop) (s : sst) : (forall v, P v -> P' v) -> sv P s -> sv P' s.
+Lemma sv_mono (P P' : N -> N -> Prop) (s : sst) : (forall id v, P id v -> P' id v) -> sv P s -> sv P' s.
 Proof.
   intros M [A B C]. constructor.
   - intros r H v E. apply M. eapply A; eassumption.
@@ -132,9 +133,9 @@ Proof.
 Qed.
 
 (* one poll of execute(): the only place a value is produced *)
-Lemma sv_execute_poll (P P' : N -> Prop) k st (s : sst) s' l :
-  execute_poll k st s = (s', l) -> sv P s -> (forall v, P v -> P' v) ->
-  (forall v, In (OHDone k (BOk v)) l -> P' v) -> sv P' s'.
+Lemma sv_execute_poll (P P' : N -> N -> Prop) k st (s : sst) s' l :
+  execute_poll k st s = (s', l) -> sv P s -> (forall id v, P id v -> P' id v) ->
+  (forall hr v, nth_error (s_handlers s) k = Some hr -> In (OHDone k (BOk v)) l -> P' (h_id hr) v) -> sv P' s'.
 Proof.
   intros E H M N. apply (sv_mono P P' s M) in H.
   unfold execute_poll in E. destruct (nth_error (s_handlers s) k) as [hr|] eqn:EN;
@@ -142,12 +143,12 @@ Proof.
   pose proof (sv_h _ _ H _ (nth_error_In _ _ EN)) as Hhr.
   assert (FIN : forall sx, sv P' sx -> sv P' (set_handlers sx (set_hst k HDone (s_handlers sx)))).
   { intros sx [A B C]. constructor; sproj; try assumption.
-    intros x Hx. apply in_set_hst in Hx. destruct Hx as [Hx|Hx]; [apply B, Hx|rewrite Hx; exact I]. }
+    intros x Hx. apply in_set_hst in Hx. destruct Hx as [Hx|[Hx _]]; [apply B, Hx|rewrite Hx; exact I]. }
   assert (FIN2 : forall sx, s_handlers sx = s_handlers s -> sv P' sx ->
                  sv P' (set_handlers sx (set_hst k HDone (s_handlers s)))).
   { intros sx <- Hx. apply FIN, Hx. }
   assert (SW : forall w, sv P' (set_waiters s w)) by (intro w; eapply sv_eq; [..|exact H]; reflexivity).
-  assert (TS : forall b pre, b_ok P' b ->
+  assert (TS : forall b pre, b_ok P' (h_id hr) b ->
             (if s_dropped s then (set_handlers s (set_hst k HDone (s_handlers s)), pre ++ [OExecReady k])
              else match s_permits s with
                   | S p => (set_handlers (set_respq (set_permits s p) (s_respq s ++ [mkresp (h_id hr) b]))
@@ -159,17 +160,18 @@ Proof.
   { intros b pre Hb E1. destruct (s_dropped s); [injection E1 as <- _; apply FIN, H|].
     destruct (s_permits s) as [|p]; injection E1 as <- _.
     - destruct H as [A B C]. constructor; sproj; try assumption.
-      intros x Hx. apply in_set_hst in Hx. destruct Hx as [Hx|Hx]; [apply B, Hx|rewrite Hx; exact Hb].
+      intros x Hx. apply in_set_hst in Hx. destruct Hx as [Hx|(Hx & y & Ey & Ei)]; [apply B, Hx|].
+      rewrite Hx, Ei. rewrite EN in Ey. injection Ey as <-. exact Hb.
     - destruct H as [A B C]. constructor; sproj; try assumption.
       + intros x Hx. apply in_app_or in Hx. destruct Hx as [Hx|[<-|[]]]; [apply A, Hx|exact Hb].
-      + intros x Hx. apply in_set_hst in Hx. destruct Hx as [Hx|Hx]; [apply B, Hx|rewrite Hx; exact I]. }
+      + intros x Hx. apply in_set_hst in Hx. destruct Hx as [Hx|[Hx _]]; [apply B, Hx|rewrite Hx; exact I]. }
   destruct (h_st hr) eqn:EST; try (injection E as <- <-; exact H).
   - (* HYielded *)
     destruct (existsb _ _); [injection E as <- <-; apply FIN, H|].
     destruct st as [|v|].
     + injection E as <- <-. destruct H as [A B C]. constructor; sproj; try assumption.
-      intros x Hx. apply in_set_hst in Hx. destruct Hx as [Hx|Hx]; [apply B, Hx|rewrite Hx; exact I].
-    + eapply TS; [|exact E]. intros v0 [= <-]. apply N.
+      intros x Hx. apply in_set_hst in Hx. destruct Hx as [Hx|[Hx _]]; [apply B, Hx|rewrite Hx; exact I].
+    + eapply TS; [|exact E]. intros v0 [= <-]. apply (N hr v eq_refl).
       assert (In (OHDone k (BOk v)) ([OHPolled k; OHDone k (BOk v)] ++ [OExecReady k])
               /\ In (OHDone k (BOk v)) ([OHPolled k; OHDone k (BOk v)] ++ [OExecPending k])) as [I1 I2]
         by (split; right; left; reflexivity).
@@ -180,8 +182,8 @@ Proof.
     destruct (existsb _ _); [injection E as <- <-; apply FIN, H|].
     destruct st as [|v|].
     + injection E as <- <-. destruct H as [A B C]. constructor; sproj; try assumption.
-      intros x Hx. apply in_set_hst in Hx. destruct Hx as [Hx|Hx]; [apply B, Hx|rewrite Hx; exact I].
-    + eapply TS; [|exact E]. intros v0 [= <-]. apply N.
+      intros x Hx. apply in_set_hst in Hx. destruct Hx as [Hx|[Hx _]]; [apply B, Hx|rewrite Hx; exact I].
+    + eapply TS; [|exact E]. intros v0 [= <-]. apply (N hr v eq_refl).
       assert (In (OHDone k (BOk v)) ([OHPolled k; OHDone k (BOk v)] ++ [OExecReady k])
               /\ In (OHDone k (BOk v)) ([OHPolled k; OHDone k (BOk v)] ++ [OExecPending k])) as [I1 I2]
         by (split; right; left; reflexivity).
@@ -199,7 +201,7 @@ Proof.
 Qed.
 
 Section Step.
-  Variable P : N -> Prop.
+  Variable P : N -> N -> Prop.
   Context {C : Type}.
   Variable ctl : Chain.link -> C -> Chain.link.
   Variable tfuel : Chain.link -> nat.
